@@ -7,10 +7,11 @@ pub mod gamma;
 pub mod memo;
 pub mod stream;
 pub mod wire04;
+pub mod wire07;
 
-pub const CLAIMED: [&str; 5] = ["C01", "C03", "C04", "C05", "C09"];
+pub const CLAIMED: [&str; 6] = ["C01", "C03", "C04", "C05", "C07", "C09"];
 
-static META: [PropertyMeta; 5] = [
+static META: [PropertyMeta; 6] = [
     PropertyMeta {
         id: "C01",
         level: "exploration",
@@ -68,6 +69,19 @@ static META: [PropertyMeta; 5] = [
         stub_components: &["none: the scheduler only decides the order of API calls and which memo they share"],
     },
     PropertyMeta {
+        id: "C07",
+        level: "fault_enumeration",
+        engine: "wire-sim (metered mode)",
+        rule: "a run = 1-3 honest deliveries: a generated (environment, wire types, values) message decoded through the untyped API at the same / an upgraded / a mutated / an opt-wrapped expected type list with surplus or missing arguments, or a corpus value (plus optional surplus argument) decoded natively at the same or another corpus type; wire types include vectors of zero-sized elements, references, text-keyed and big-number maps, recursive types. Per delivery the fault 'quota exhausted after k units' is enumerated: every decoding quota in 0..cost+1 and every skipping quota in 0..cost+1 (all points when the cost is <= 4000, else boundaries + 64 seeded points) plus the 3x3 boundary cross. distinct = distinct (delivery description, measured cost pair). non-trivial = the delivery decodes unmetered, so its abort points were enumerated.",
+        assumptions: &[
+            "value and skip counts come from the harness's own abstract values; the skip lower bound counts only what is certainly skipped (surplus arguments, surplus record fields; everything in the untyped API)",
+            "the upper bound (cost <= 8 x documented model, model transcribed from the doc comment of set_decoding_quota, 50x for the untyped API) is evaluated for identity decodes only",
+            "if the unmetered decode fails, any error is accepted under quotas",
+        ],
+        real_components: &["candid::de (all cost accounting, opt back-tracking, skipping)", "DecoderConfig::compute_cost", "candid::ser for the honest messages"],
+        stub_components: &["none below the API: the injected fault is the quota value itself"],
+    },
+    PropertyMeta {
         id: "C09",
         level: "exploration",
         engine: "stream-sim",
@@ -106,6 +120,10 @@ macro_rules! dispatch {
             }
             "C05" => {
                 use gamma as $m;
+                $body
+            }
+            "C07" => {
+                use wire07 as $m;
                 $body
             }
             "C09" => {
@@ -161,6 +179,15 @@ pub fn extra_evidence(prop: &str, tier: Tier, stats: &Stats) -> serde_json::Valu
                 "exhaustive_note": format!("{envs} of {} small environments had all two-query histories enumerated{}", gamma::small_env_count(), if tier == Tier::Thorough { " (thorough: every small environment)" } else { " (quick: seeded sample)" }),
                 "schedule_reached": "order of queries, which memo they share, memo retirement after failed queries",
                 "workload_only": "shapes of environments and query pairs",
+            })
+        }
+        "C07" => {
+            let full = stats.exhaustive_parts.get("messages_with_every_abort_point_enumerated").copied().unwrap_or(0);
+            let samp = stats.exhaustive_parts.get("messages_with_sampled_abort_points").copied().unwrap_or(0);
+            serde_json::json!({
+                "exhaustive": false,
+                "exhaustive_note": format!("per message the abort-point space was swept completely for {full} messages and sampled for {samp}; the message space itself is sampled"),
+                "model_factor_limit": wire07::K_MODEL,
             })
         }
         _ => serde_json::json!({}),
